@@ -9,7 +9,7 @@ VARIANTS = ['asan']
 ISOLATE = True
 
 DECLS = [D('i', 'int', default=1), D('f', 'float', default=0.5), D('s', 'str', default='dflt'), D('l', 'int', F_LIST, default=[1, 2]),
-         D('sec', 'sec', F_MULTI | F_TITLE, sub=[D('x', 'int', default=9)]), D('include', 'func', cbs='I'), D('dep', 'int', core.F_DEPRECATED, 3)]
+         D('sec', 'sec', F_MULTI | F_TITLE, sub=[D('x', 'int', default=9)]), D('include', 'func', cbs='I'), D('dep', 'int', core.F_DEPRECATED, 3), D('depfn', 'func', core.F_DEPRECATED, cbs='F'), D('depsec', 'sec', core.F_DEPRECATED, sub=[D('x', 'int', default=0)])]
 
 FILES = {
     'good.conf': 'l = {7, 8}\n',
@@ -54,6 +54,7 @@ EVENTS = {
     # rejected between the '=' of a list and its first accepted value: nothing was stored
     'long-string': ['parse_buf 0 %s' % hx('s = "%s"\ni = 4\n' % ('q' * 9000))],             # accepted; the scanner's token buffer has grown
     'long-comment-bad': ['parse_buf 0 %s' % hx('/* %s */\ni = = 4\n' % ('c ' * 4500))],      # rejected after a long comment
+    'depfn-call': ['parse_buf 0 %s' % hx('depfn(a)\ndepsec { x = 1 }\n')],                  # accepted, with deprecation notices for a function and a section
     'dep-parse': ['parse_buf 0 %s' % hx('dep = 1\n')],                          # accepted, with the deprecation notice
     'include-via-searchpath': ['init? 1 @SID 0', 'add_searchpath 1 %s' % hx('spdir'), 'parse_buf 1 %s' % hx('include("good.conf")\n')],
     'eof-after-eq': ['parse_buf 0 %s' % hx('l =')],
@@ -69,7 +70,7 @@ EVENTS = {
     'bare-open-comment': ['parse_buf 0 %s' % hx('i = 4 /*')],
     'eof-in-call-args': ['parse_buf 0 %s' % hx('include("good.conf", "x"')],
 }
-QUICK_EVENTS = ['bare-open-dq', 'bare-open-comment', 'eof-in-call-args', 'ok', 'open-dq', 'open-sq', 'open-comment', 'bad-escape', 'fail-in-include-1', 'fail-in-include-3', 'self-include', 'int-range',
+QUICK_EVENTS = ['bad-octal', 'depfn-call', 'bare-open-dq', 'bare-open-comment', 'eof-in-call-args', 'ok', 'open-dq', 'open-sq', 'open-comment', 'bad-escape', 'fail-in-include-1', 'fail-in-include-3', 'self-include', 'int-range',
                 'float-range', 'missing-include', 'reinit', 'second', 'eof-in-section', 'file-open-dq', 'eof-in-list', 'fp-fail-in-include-1', 'fp-fail-in-include-3', 'file-fail-in-include-3', 'eof-after-eq', 'range-first-value', 'dep-parse', 'include-via-searchpath', 'long-string', 'long-comment-bad']
 
 # events that are rejected before anything is stored: after a history made of these alone, the history's own context must give
@@ -91,9 +92,10 @@ PROBES = [
     'include("n1.conf")\n',
     'include("c1.conf")\n',
     'dep = 4\ni = 2\n',
-    'include("good.conf")\ni = 3\n',          # (probe 13) parsed into a context that has its own search path, see PROBE_SP
+    'depfn(b, c)\ndepsec { x = 2 }\ni = 6\n',
+    'include("good.conf")\ni = 3\n',          # (probe 14) parsed into a context that has its own search path, see PROBE_SP
 ]
-PROBE_SP = {13: 'spdir2'}                        # probe -> search directory given to the probe's context (holds another good.conf)
+PROBE_SP = {14: 'spdir2'}                        # probe -> search directory given to the probe's context (holds another good.conf)
 
 RULE = ('all histories up to length N over %d prior events (accepted parse; parse ending inside "...", \'...\', /*...; lexer errors; failure in an included file at depth 1 and 3 through cfg_parse_buf, cfg_parse_fp and cfg_parse; '
         'self-include to the depth limit; integer/float range failure; missing include; EOF inside a section/list/call; file/stream variants; root free + re-init; second context), '
@@ -181,7 +183,7 @@ def judge(spec, events, death):
     if spec.get('kind') == 'two':
         return judge_two(spec, events, death, v)
     hist = spec['hist']
-    aborted = [h for h in hist if h not in ('ok', 'reinit', 'second', 'dep-parse', 'include-via-searchpath', 'long-string')]
+    aborted = [h for h in hist if h not in ('ok', 'reinit', 'second', 'dep-parse', 'depfn-call', 'include-via-searchpath', 'long-string')]
     g = groups_of(events)
     if death is not None:
         stage = 'history' if 'history-done' not in g else 'probe'
